@@ -250,3 +250,234 @@ def run(pm, ctx, rule, layer, title, what):
     ctx.extra['%s_sites_matched' % rule] = matched
     ctx.extra['%s_sites_current' % rule] = len(cur)
     ctx.floor(rule, matched, max(1, int(0.5 * len(ref))), 'refusal sites matched with the reference')
+
+
+# ---------------------------------------------------------------------------
+# decision drift: the tests of a function (if / elif / while / conditional
+# expression / comprehension filter / assert) compared with the reference
+
+def _test_atoms(f, test):
+    """(connective, sorted canonical atoms) of one test expression."""
+    from .pathcond import decompose
+    if isinstance(test, ast.UnaryOp) and isinstance(test.op, ast.Not) and \
+            isinstance(test.operand, ast.BoolOp) and isinstance(test.operand.op, ast.And):
+        # not (a and b)  ==  not a or not b
+        inner = _test_atoms(f, test.operand)
+        fl = _flip(list(inner))
+        if fl is not None:
+            return fl[0], fl[1]
+    if isinstance(test, ast.BoolOp) and isinstance(test.op, ast.Or):
+        # a disjunction: canonical atoms of the operands, connective 'or'
+        parts = []
+        for v in test.values:
+            sub = decompose(v, True)
+            if len(sub) != 1:
+                return 'text', [json.dumps(['atom', _subst_text(f, test), True])]
+            parts.append(json.dumps(_truthy(canonical_atom(f, sub[0][0], sub[0][1]))))
+        return 'or', sorted(parts)
+    atoms = decompose(test, True)
+    return 'and', sorted(json.dumps(_truthy(canonical_atom(f, e, p))) for e, p in atoms)
+
+
+def _truthy(a):
+    """`x is not None` and the truth value of `x` are tests on the same
+    operand: give them the same key and different relations, so that replacing
+    one by the other is seen as a changed relation."""
+    if a[0] == 'rel' and a[2] == 'is' and a[3] == 'None':
+        return ['tv', a[1], 'notnone' if not a[4] else 'none']
+    if a[0] == 'atom' and not any(ch in a[1] for ch in '()[] ') :
+        return ['tv', a[1], 'truthy' if a[2] else 'falsy']
+    if a[0] == 'atom' and a[1].replace('.', '').replace('_', '').isalnum():
+        return ['tv', a[1], 'truthy' if a[2] else 'falsy']
+    return a
+
+
+KIND_ORDER = {'raise': 0, 'return': 1, 'continue': 2, 'break': 3, 'fall': 4}
+
+
+def _terminal_kind(stmts):
+    """How control leaves a statement list: raise / return / continue / break /
+    fall (reaches its end on some path)."""
+    from .pathcond import terminates
+    if not stmts or not terminates(stmts):
+        return 'fall'
+    last = stmts[-1]
+    for st in reversed(stmts):
+        if isinstance(st, ast.Raise):
+            return 'raise'
+        if isinstance(st, ast.Return):
+            return 'return'
+        if isinstance(st, ast.Continue):
+            return 'continue'
+        if isinstance(st, ast.Break):
+            return 'break'
+        if isinstance(st, (ast.If, ast.With, ast.Try)):
+            kinds = {_terminal_kind(b) for b in (getattr(st, 'body', []), getattr(st, 'orelse', []))
+                     if b}
+            return sorted(kinds, key=lambda k: KIND_ORDER[k])[0] if kinds else 'fall'
+        break
+    return 'fall' if not isinstance(last, (ast.Raise, ast.Return, ast.Continue, ast.Break)) \
+        else 'fall'
+
+
+def _flip(formula):
+    """De Morgan negation of [connective, atoms]."""
+    conn, atoms = formula
+    if conn == 'text':
+        return None
+    out = []
+    for a in atoms:
+        x = json.loads(a)
+        if x[0] == 'cmp':
+            x = ['cmp', x[1], x[2], ''.join(sorted(set('<=>') - set(x[3])))]
+        elif x[0] == 'rel':
+            x = ['rel', x[1], x[2], x[3], not x[4]]
+        elif x[0] == 'tv':
+            x = ['tv', x[1], {'notnone': 'none', 'none': 'notnone', 'truthy': 'falsy',
+                              'falsy': 'truthy'}[x[2]]]
+        else:
+            x = ['atom', x[1], not x[2]]
+        out.append(json.dumps(x))
+    return [{'and': 'or', 'or': 'and'}[conn] if len(atoms) > 1 else conn, sorted(out)]
+
+
+def _if_record(f, st):
+    """[connective, atoms, then_kind, else_kind] of an if statement, as written.
+    The kinds say how each side leaves (raise / return / continue / break /
+    fall); they are used only to recognise a benign inversion (`if not ok:
+    raise ...; return x`  ==  `if ok: return x; raise ...`): the negated test
+    with the two sides swapped."""
+    formula = list(_test_atoms(f, st.test))
+    then_kind = _terminal_kind(st.body)
+    if st.orelse:
+        else_kind = _terminal_kind(st.orelse)
+    else:
+        par = getattr(st, '_parent', None)
+        rest = []
+        for field in ('body', 'orelse', 'finalbody'):
+            blk = getattr(par, field, None)
+            if isinstance(blk, list) and st in blk:
+                rest = blk[blk.index(st) + 1:]
+        else_kind = _terminal_kind(rest)
+    return formula + [then_kind, else_kind]
+
+
+def decisions(pm, funcs):
+    """{qualname: [[connective, atoms], ...]} in source order."""
+    out = {}
+    for f in funcs:
+        tests = []
+        for n in own_nodes(f.node):
+            if isinstance(n, ast.If):
+                tests.append(_if_record(f, n))
+            elif isinstance(n, (ast.While, ast.IfExp, ast.Assert)):
+                tests.append(list(_test_atoms(f, n.test)))
+            elif isinstance(n, ast.comprehension):
+                for c in n.ifs:
+                    tests.append(list(_test_atoms(f, c)))
+        if tests:
+            out[f.qualname] = tests
+    return out
+
+
+def _key2(atom):
+    a = json.loads(atom)
+    if a[0] == 'tv':
+        return ('tv', a[1])
+    return _key_of(atom)
+
+
+def compare_tests(r, c):
+    """Verdict for a reference test r and a current test c (each [connective,
+    atoms])."""
+    if r[:2] == c[:2]:
+        return 'ok', ''
+    fc = _flip(c[:2])
+    if fc is not None and fc == r[:2]:
+        # the exact negation: benign only when the two sides were swapped with it
+        if len(r) == 4 and len(c) == 4 and (c[2], c[3]) == (r[3], r[2]) and r[2] != r[3]:
+            return 'ok', ''
+        return 'changed', 'test negated without swapping its two sides'
+    rk = {_key2(a): a for a in r[1]}
+    ck = {_key2(a): a for a in c[1]}
+    if r[0] != c[0] and set(rk) == set(ck) and r[0] in ('and', 'or') and c[0] in ('and', 'or') \
+            and len(rk) > 1:
+        return 'changed', 'connective %s -> %s' % (r[0], c[0])
+    if r[0] != c[0] and not (len(rk) == 1 or len(ck) == 1):
+        return 'incomparable', ''
+    if set(rk) == set(ck):
+        diff = [(rk[k], ck[k]) for k in rk if rk[k] != ck[k]]
+        return ('changed', '; '.join('%s -> %s' % d for d in diff)) if diff else ('ok', '')
+    conn = c[0] if len(ck) > 1 else r[0]
+    if set(rk) < set(ck) and all(rk[k] == ck[k] for k in rk):
+        return ('narrowed' if conn == 'and' else 'widened',
+                'additional operand(s): %s' % sorted(ck[k] for k in set(ck) - set(rk)))
+    if set(ck) < set(rk) and all(rk[k] == ck[k] for k in ck):
+        return ('widened' if conn == 'and' else 'narrowed',
+                'dropped operand(s): %s' % sorted(rk[k] for k in set(rk) - set(ck)))
+    return 'incomparable', ''
+
+
+def run_decisions(pm, ctx, rule, patterns, title=None, min_funcs=1):
+    """Decision drift for the functions whose qualified name matches one of
+    ``patterns`` (regular expressions).  Tests that are unchanged are paired
+    off first; each remaining current test is paired with a remaining
+    reference test of the same function only when the two are comparable
+    (same operands with another relation/polarity/connective, or a pure
+    addition/removal of operands); everything else is not claimed."""
+    import re
+    from .model import AnalysisError
+    ctx.rule(rule, title or
+             'the tests (if/elif/while/conditional expression/filter/assert) of the functions the '
+             'property is anchored in are those confirmed on the reference tree: no relation, '
+             'polarity or connective changed over the same operands, no operand purely added or '
+             'dropped (re-spellings and new or removed tests are not claimed)')
+    verif = os.path.dirname(os.path.dirname(os.path.abspath(__file__)))
+    ref = load_reference(verif, 'decisions')
+    if ref is None:
+        raise AnalysisError('anchor=reference/conditions.json (decisions missing)')
+    pats = [re.compile(p) for p in patterns]
+    funcs = [f for q, f in sorted(pm.functions.items()) if any(p.search(q) for p in pats)]
+    all_nested = []
+
+    def add(f):
+        all_nested.append(f)
+        for g in f.nested.values():
+            add(g)
+    for f in funcs:
+        add(f)
+    cur = decisions(pm, all_nested)
+    n_funcs = n_tests = 0
+    for f in all_nested:
+        q = f.qualname
+        if q not in ref or q not in cur:
+            continue
+        n_funcs += 1
+        rt = [json.dumps(t) for t in ref[q]]
+        ct = [json.dumps(t) for t in cur[q]]
+        n_tests += len(ct)
+        r_left = list(rt)
+        c_left = []
+        for t in ct:
+            same = [x for x in r_left if json.loads(x)[:2] == json.loads(t)[:2]]
+            if same:
+                r_left.remove(same[0])
+            else:
+                c_left.append(t)
+        problems = []
+        for t in c_left:
+            c = json.loads(t)
+            for rr in list(r_left):
+                verdict, detail = compare_tests(json.loads(rr), c)
+                if verdict in ('changed', 'narrowed', 'widened'):
+                    problems.append((verdict, detail))
+                    r_left.remove(rr)
+                    break
+        ctx.check(rule, not problems, '%s: %d tests as confirmed' % (f.short, len(ct)), f.loc,
+                  msg='%s: a test %s (%s): the function now decides differently for some inputs'
+                      % (f.short, problems[0][0] if problems else '',
+                         '; '.join(d for _, d in problems)[:400]),
+                  key='%s|%s|tests' % (rule, q))
+    ctx.extra['%s_functions' % rule] = n_funcs
+    ctx.extra['%s_tests' % rule] = n_tests
+    ctx.floor(rule, n_funcs, min_funcs, 'functions with tests matched with the reference')
